@@ -24,4 +24,17 @@ PROPS = {
     },
 }
 
+PROPS["C20"] = {
+    "lean": ["OlricModel.Props.C20"],
+    "streams": [("churn", (30, 500), (300, 2000)), ("kv", (15, 300), (200, 400))],
+    "model": True,
+    "level_text": "Invariant theorems over every reachable state of the store model: bytes in use = bytes of live records and inuse+garbage = bytes written for every table (so every superseding write, delete, raw write and compaction move turns the old bytes into garbage); Compaction reports done exactly when every retired table is below the 40% threshold; a recycled table is reused before a new one is allocated; per-table bound 3*alloc < 5*inuse + 5*E. Tied to internal/kvstore by the lock-step churn/kv streams whose dumps expose the counters.",
+    "design_ref": "DESIGN.md §6 C20",
+    "modelled": "internal/kvstore (as C11); dmap/compaction.go's worker loop is not modelled (it calls Compaction until done)",
+    "assumptions": [
+        "the bound theorem takes 'a retired table is nearly full' (the guard of table.Put) as a hypothesis; termination of compaction-to-done is checked by the stream oracle (step budget), not yet proved (partial)",
+        "float64 rounding of the 0.40 ratio is not modelled",
+    ],
+}
+
 NOT_CLAIMED = {}
